@@ -49,6 +49,7 @@ def setVerdict (n : Int) (allocOk : Bool) : Verdict :=
 def newVerdict (n : Int) (allocOk : Bool) : Verdict :=
   if n < 0 ∨ n > INT_MAX then .mustRefuse
   else if allocOk = false then .mustRefuse
+  else if n ≥ INT_MAX - 1 then .either
   else .mustServe
 
 /-! ### allocator discipline over an event log -/
